@@ -441,6 +441,16 @@ def default_value(t):
     raise TypeError(t)
 
 
+def overaligned_part(t):
+    """schema shape of a recorded C09 finding: a block that follows a dynamic field is less aligned than the block before
+    it (the raw C++ part helper rounds the end of its dynamic field up to its own part's alignment first)"""
+    if not isinstance(t, Struct):
+        return False
+    dyn = [i for i, f in enumerate(t.fields) if is_dynamic_field(f.ty) and i < len(t.fields) - 1]
+    aligns = [blk(t, i) for i in dyn]
+    return any(aligns[j] > aligns[j + 1] for j in range(len(aligns) - 1))
+
+
 def greedy_aligned(t, v):
     """C02's documented exception: a greedy tail must end on the enclosing message's alignment"""
     if not isinstance(t, Struct) or stiff(t) != K_UNLIMITED:
